@@ -27,6 +27,15 @@ The layer also carries the life of the executor THREADS, which `ForML.Model.Serv
   ever take it (`Worker.run`: `while not self._stopped.is_set()`): that caller is neither answered nor refused.
   `exited` lists the instances whose executor thread has left its loop; `lateSubmit` is that acceptance.
   With no fatal request no pool ever stops and none of this is reachable (`crun_inv`).
+
+… and the wrapper's PROCESS POOL, a resource shared by every application:
+* `dispatch.py` `Wrapper.respond` runs `Wrapper._pack` (`descriptor.respond`: `get_encoder(*accept)`, encoding) on
+  `futures.ProcessPoolExecutor`.  What `_pack` returns or raises travels back pickled; an exception is rebuilt in the
+  engine process by calling its class with its `args`.  An error value that does not survive this
+  (`Env.transportable e = false`) cannot be delivered: the pool's result handler fails, `concurrent.futures` marks the
+  pool broken, the pending calls - the failing one and every other in-flight `respond` - get `BrokenProcessPool`, and so does
+  every later `respond` of every application (`submit` raises).  `packBroken` is that state.  The error values of the code
+  that exists are plain exceptions with a message (`Encoding.Unsupported(str)`): transportable.
 -/
 import ForML.Model.Serving
 namespace ForML.Serving
@@ -38,8 +47,19 @@ structure CState where
   blocked : Bool := false
   /-- instances whose executor thread has left `Executor.run` (`is_alive()` is false) -/
   exited : List Nat := []
+  /-- the process pool of `Wrapper.respond` is broken -/
+  packBroken : Bool := false
 
-def cinit : CState := ⟨init, false, []⟩
+def cinit : CState := ⟨init, false, [], false⟩
+
+/-- the environment of the engine: the variant of the component loader (`hazard`, finding C16-F2) and which error
+values survive the way back from a pool process -/
+structure Env where
+  hazard : Bool
+  transportable : Err → Bool := fun _ => true
+
+/-- the code that exists, as far as transport goes (every error value is a plain exception with a message) -/
+def envOf (hazard : Bool) : Env := { hazard := hazard }
 
 inductive CStep where
   /-- a step of the underlying transition system -/
@@ -86,25 +106,42 @@ def lateBlocked (cfg : Config) (s : CState) : Step → Bool
   | .submit c => lateWindow cfg s c
   | _ => false
 
-def cstep (hazard : Bool) (cfg : Config) (s : CState) : CStep → Option CState
+/-- `Wrapper.respond` for caller `c` through the shared process pool -/
+def respondStep (env : Env) (cfg : Config) (s : CState) (c : Nat) : Option CState :=
+  match s.base.phase c with
+  | .responding o =>
+    if s.packBroken then some { s with base := answer s.base c (.error .brokenPool) }
+    else match (encode cfg c o).err? with
+      | none => some { s with base := answer s.base c (encode cfg c o) }
+      | some e =>
+        if env.transportable e then some { s with base := answer s.base c (encode cfg c o) }
+        else some { s with base := answer s.base c (.error .brokenPool), packBroken := true }
+  | _ => none
+
+/-- a step of the underlying system as the engine performs it (`respond` goes through the process pool) -/
+def stepVia (env : Env) (cfg : Config) (s : CState) : Step → Option CState
+  | .respond c => respondStep env cfg s c
+  | a => match step cfg s.base a with
+    | none => none
+    | some b => some { s with base := b }
+
+def cstep (env : Env) (cfg : Config) (s : CState) : CStep → Option CState
   | .step a =>
     if s.blocked && needsLoop a then none
     else if lateBlocked cfg s a then none
-    else match step cfg s.base a with
-      | none => none
-      | some b => some { s with base := b }
+    else stepVia env cfg s a
   | .wedge c =>
-    if hazard && !s.blocked && wedgeable cfg s.base c then some { s with blocked := true } else none
+    if env.hazard && !s.blocked && wedgeable cfg s.base c then some { s with blocked := true } else none
   | .exit i =>
     if (s.base.execs i).stopped && !s.exited.contains i then some { s with exited := i :: s.exited } else none
   | .lateSubmit c =>
     if !s.blocked && lateWindow cfg s c then some { s with base := accept cfg s.base c } else none
 
-def crun (hazard : Bool) (cfg : Config) (s : CState) : List CStep → Option CState
+def crun (env : Env) (cfg : Config) (s : CState) : List CStep → Option CState
   | [] => some s
-  | a :: as => match cstep hazard cfg s a with
+  | a :: as => match cstep env cfg s a with
     | none => none
-    | some s' => crun hazard cfg s' as
+    | some s' => crun env cfg s' as
 
 /-- the steps of the underlying system a schedule performs -/
 def baseSteps : List CStep → List Step
@@ -117,7 +154,7 @@ def ccandidates (cfg : Config) : List CStep :=
     ++ (instsOf cfg).map .exit ++ (List.range cfg.callers.length).map .lateSubmit
 
 /-- nothing is enabled any more -/
-def cstuck (hazard : Bool) (cfg : Config) (s : CState) : Bool :=
-  (ccandidates cfg).all (fun a => (cstep hazard cfg s a).isNone)
+def cstuck (env : Env) (cfg : Config) (s : CState) : Bool :=
+  (ccandidates cfg).all (fun a => (cstep env cfg s a).isNone)
 
 end ForML.Serving
